@@ -291,10 +291,13 @@ pub fn view_root(r: &Relations) -> String {
 }
 
 /// one representative per lexer arm (14 punctuation arms, newline), three whitespace characters,
-/// three identifier characters, two "anything else" characters (ASCII and multi-byte)
-pub const ALPHABET_FULL: [&str; 23] = [
+/// three identifier characters, four "anything else" characters: ASCII, multi-byte, and two that
+/// Unicode calls White_Space although the lossless lexer does not — U+00A0 and the control
+/// character form feed; `str::trim()` of the lossy reader strips both (audit C09/C10: the texts
+/// sent to `rel.lossy` / `rel.lprint` / `rel.view` must contain them)
+pub const ALPHABET_FULL: [&str; 25] = [
     "a", "1", "-", ":", "|", ",", "(", ")", "[", "]", "!", "<", ">", "=", "$", "{", "}", " ", "\t", "\r",
-    "\n", "@", "é",
+    "\n", "@", "é", "\u{a0}", "\u{c}",
 ];
 /// merged classes: one identifier character, one whitespace character, one error character
 pub const ALPHABET_MERGED: [&str; 18] = [
@@ -450,7 +453,7 @@ pub fn gen_c09_texts(tier: &str, seed: u64) -> Vec<String> {
         v.extend(strings_upto(&ALPHABET_FULL, 3));
         v.extend(exact_len(&ALPHABET_MERGED, 4));
         // length 4 over the characters the merged alphabet drops, with their neighbours
-        let extra = ["a", "1", "-", " ", "\t", "\r", "\n", "@", "é", ","];
+        let extra = ["a", "1", "-", " ", "\t", "\r", "\n", "@", "é", ",", "\u{a0}", "\u{c}"];
         v.extend(exact_len(&extra, 4));
     }
     // 2. token level: a context prefix that puts the parser inside a nested construct, followed
@@ -592,9 +595,26 @@ pub fn generate_c09(tier: &str, seed: u64, out: &mut Out) {
     }
 }
 
-/// lossy reader + printer over the rendered C10 fields and the C09 texts (groundwork for C14;
-/// run with `harness gen C14pre <tier> <seed>`)
+/// `every`-th text of the C09 exploration, the residue chosen by the seed (so that successive seeds
+/// cover the whole set); `every = 1` keeps everything. All texts of <= 3 characters are kept.
+fn sampled_c09_texts(tier: &str, seed: u64, every: usize) -> Vec<String> {
+    let r = (seed as usize) % every.max(1);
+    gen_c09_texts(tier, seed)
+        .into_iter()
+        .enumerate()
+        .filter(|(i, t)| every <= 1 || i % every == r || t.chars().count() <= 3)
+        .map(|(_, t)| t)
+        .collect()
+}
+
+/// lossy reader + printer over the rendered C10 fields and the C09 texts — part of `check C14`
+/// (also alone: `harness gen C14pre <tier> <seed>`, every text). Quick tier inside the check: every
+/// third text; thorough: every text of the quick enumeration.
 pub fn generate_c14pre(tier: &str, seed: u64, out: &mut Out) {
+    generate_c14pre_every(tier, seed, out, 1)
+}
+
+pub fn generate_c14pre_every(tier: &str, seed: u64, out: &mut Out, every: usize) {
     let mut tmp = Out::new();
     generate_c10(tier, seed, &mut tmp);
     for l in tmp.lines {
@@ -604,21 +624,31 @@ pub fn generate_c14pre(tier: &str, seed: u64, out: &mut Out) {
             }
         }
     }
-    for t in gen_c09_texts("quick", seed) {
+    for t in sampled_c09_texts("quick", seed, every) {
         out.req("rel.lprint", &[es(&t)]);
         out.req("rel.lossy", &[es(&t)]);
     }
 }
 
-/// accessor views over the C09 texts, and `debversion::Version::from_str` over its own alphabet
-/// (groundwork for C10; run with `harness gen C10pre <tier> <seed>`)
+/// accessor views over the C09 texts, and `debversion::Version::from_str` over its own alphabet —
+/// part of `check C10` (also alone: `harness gen C10pre <tier> <seed>`, every text). Quick tier
+/// inside the check: every second text, every version text of <= 4 characters and every second one
+/// of 5; thorough: every fourth text of the thorough enumeration, version texts to 6 likewise.
 pub fn generate_c10pre(tier: &str, seed: u64, out: &mut Out) {
-    for t in gen_c09_texts(tier, seed) {
+    generate_c10pre_every(tier, seed, out, 1)
+}
+
+pub fn generate_c10pre_every(tier: &str, seed: u64, out: &mut Out, every: usize) {
+    for t in sampled_c09_texts(tier, seed, every) {
         out.req("rel.view", &[if with_dollar(&t) { "1" } else { "0" }.to_string(), es(&t)]);
     }
     let valpha = ["1", "0", "a", ":", "-", ".", "+", "~", "_", "é", "٣"];
-    for t in strings_upto(&valpha, if tier == "thorough" { 6 } else { 5 }) {
-        out.req("rel.version", &[es(&t)]);
+    let r = (seed as usize) % every.max(1);
+    let vmax = if tier == "thorough" { 6 } else { 5 };
+    for (i, t) in strings_upto(&valpha, vmax).into_iter().enumerate() {
+        if every <= 1 || t.chars().count() < vmax || i % every == r {
+            out.req("rel.version", &[es(&t)]);
+        }
     }
     for t in ["4294967295:1", "4294967296:1", "00000000001:1", "99999999999999999999:1", "1:-", "1:-1", "1:a-", "a--b", "-a-b"] {
         out.req("rel.version", &[es(t)]);
